@@ -160,8 +160,9 @@ class Node:
 
 
 class Expect:
-    def __init__(self):
+    def __init__(self, additional=()):
         self.errors = []   # (kind, name, path)
+        self.additional = tuple(additional)   # setAdditionalChoices()
 
 
 def utext(u):
@@ -242,16 +243,18 @@ def check_leaf(d, n, here, ex):
     if ch is None:
         return
     ok = value_ok(ch, n.value)
+    if ok is not True and n.value.strip(WS) in ex.additional:
+        ok = True          # "bypass the choice evaluation" (optionshandler.h)
     if ok is False:
         ex.errors.append(("choice", d.tag, here))
     elif ok is None:
         ex.errors.append(("undecided", d.tag, here))
 
 
-def model(decl_options, user_root):
+def model(decl_options, user_root, additional=()):
     """decl_options: <options> of the description; user_root: <options> of the
     user file. Returns (Node for <options>, Expect)"""
-    ex = Expect()
+    ex = Expect(additional)
     top = Node("options", "", False, "root")
     declared = child_tags(decl_options)
     for c in user_root:
@@ -365,7 +368,11 @@ def compare_calcopts(exp, got, path, diffs):
 WORDS = ["system", "A.orb", "def2-tzvp", "n2s1", "s1", "e h", "1 2 3", "0:5",
          "some text", "x=1,y=2", "a&b", "1<2", "q>p", "\"quoted\"", "it's",
          "äöü", "λ=5", "path/to/file.xml", "*", "0.5",
-         "-3", "true", "PBE0", "a  b"]
+         "-3", "true", "PBE0", "a  b",
+         # multi-line leaf values, runs of blanks between entity references
+         "row1\nrow2\nrow3", "1 0 0\n0 1 0\n0 0 1", "x < > y", "a &  & b",
+         "<\n>", "p & \t < q", "line one\n  indented second\n\tthird",
+         "a  <  b  >  c", "&&", "< <", "]]>", "first\n\nthird"]
 
 
 def gen_valid_value(rng, choices_att):
@@ -448,7 +455,7 @@ def gen_user(rng, d, p, fill_unchecked, stats):
                                                  "pointcharges", "freeform"])
                                   + str(i))
                 if rng.random() < 0.3:
-                    g = ET.SubElement(c, "nested")
+                    g = ET.SubElement(c, "ncfree")
                     g.text = rng.choice(WORDS)
                 else:
                     c.text = rng.choice(WORDS)
@@ -462,8 +469,17 @@ def gen_user(rng, d, p, fill_unchecked, stats):
             dc = d.find(tag)
             m = rng.choice([0, 1, 1, 2, 3])
             stats["list_mult_%d" % m] = stats.get("list_mult_%d" % m, 0) + 1
-            for _ in range(m):
-                elems.append(gen_user(rng, dc, p, fill_unchecked, stats))
+            sparse_later = rng.random() < 0.5
+            for j in range(m):
+                # later elements often omit leaves the first one has: each
+                # element must start from the declaration, not from an
+                # already resolved sibling
+                pj = p
+                if sparse_later:
+                    pj = 1.0 if j == 0 else rng.choice([0.0, 0.1, 0.3])
+                    stats["list_first_rich_later_sparse"] = \
+                        stats.get("list_first_rich_later_sparse", 0) + (j == 1)
+                elems.append(gen_user(rng, dc, pj, fill_unchecked, stats))
         rng.shuffle(elems)        # interleave the tags in the user's order
         for e in elems:
             u.append(e)
@@ -495,9 +511,91 @@ def walk_pairs(d, u, out, inside_list_elem=False):
             walk_pairs(dc, uc, out)
 
 
-def to_xml(user_options):
-    return '<?xml version="1.0"?>\n' + ET.tostring(user_options,
-                                                   encoding="unicode") + "\n"
+def esc_text(t):
+    return t.replace("&", "&amp;").replace("<", "&lt;").replace(">", "&gt;")
+
+
+def esc_attr(t, q):
+    t = t.replace("&", "&amp;").replace("<", "&lt;").replace("\n", "&#10;") \
+        .replace("\t", "&#9;")
+    return t.replace('"', "&quot;") if q == '"' else t.replace("'", "&apos;")
+
+
+def to_xml(user_options, rng=None, stats=None):
+    """serialise a user tree. Without rng: compact, everything escaped. With
+    rng: one of the spellings a hand-written file may use - pretty printing
+    (blanks/tabs, LF or CRLF), comments between elements and inside leaf text,
+    CDATA sections, numeric character references, <a></a> vs <a/>, single
+    quoted attributes, with/without XML declaration, UTF-8 BOM. None of them
+    changes the tree an XML parser delivers."""
+    if rng is None:
+        return '<?xml version="1.0"?>\n' + ET.tostring(
+            user_options, encoding="unicode") + "\n"
+    st = {"pretty": rng.random() < 0.6,
+          "indent": rng.choice(["  ", "\t", "    "]),
+          "crlf": rng.random() < 0.2,
+          "comments": rng.random() < 0.35,
+          "cdata": rng.random() < 0.3,
+          "charref": rng.random() < 0.3,
+          "decl": rng.choice(['<?xml version="1.0"?>', "",
+                              '<?xml version="1.0" encoding="UTF-8"?>',
+                              "<?xml version='1.0' encoding='utf-8' standalone='yes'?>"]),
+          "bom": rng.random() < 0.04}
+    if stats is not None:
+        for k in ("pretty", "crlf", "comments", "cdata", "charref", "bom"):
+            if st[k]:
+                stats["syntax_" + k] = stats.get("syntax_" + k, 0) + 1
+
+    def text_out(t):
+        if st["cdata"] and "]]>" not in t and t and rng.random() < 0.5:
+            if st["comments"] and len(t) > 2 and rng.random() < 0.3:
+                k = rng.randint(1, len(t) - 1)
+                return "<![CDATA[" + t[:k] + "]]><!-- split --><![CDATA[" + \
+                    t[k:] + "]]>"
+            return "<![CDATA[" + t + "]]>"
+        out = []
+        for ch in t:
+            if st["charref"] and rng.random() < 0.2 and ch not in "\r":
+                out.append(rng.choice(["&#%d;", "&#x%X;", "&#x%x;"]) % ord(ch))
+            else:
+                out.append(esc_text(ch))
+        if st["comments"] and len(out) > 1 and rng.random() < 0.3:
+            out.insert(rng.randint(1, len(out) - 1), "<!-- in the value -->")
+        return "".join(out)
+
+    def attrs_out(e):
+        r = ""
+        for k, v in e.attrib.items():
+            q = rng.choice(['"', "'"])
+            r += " " + k + rng.choice(["=", " = "]) + q + esc_attr(v, q) + q
+        return r
+
+    def rec(e, lvl):
+        pad = ("\n" + st["indent"] * lvl) if st["pretty"] else ""
+        padc = ("\n" + st["indent"] * (lvl + 1)) if st["pretty"] else ""
+        head = "<" + e.tag + attrs_out(e)
+        if len(e) == 0:
+            t = e.text or ""
+            if t == "":
+                return head + rng.choice(["/>", " />", "></" + e.tag + ">"])
+            return head + ">" + text_out(t) + "</" + e.tag + rng.choice([">", " >"])
+        body = ""
+        for c in e:
+            if st["comments"] and rng.random() < 0.2:
+                body += padc + "<!-- " + rng.choice(
+                    ["a comment", "<disabled>1</disabled>", "todo & more"]) \
+                    .replace("--", "-") + " -->"
+            body += padc + rec(c, lvl + 1)
+        return head + ">" + body + pad + "</" + e.tag + ">"
+    txt = st["decl"] + ("\n" if st["decl"] else "")
+    if st["comments"] and rng.random() < 0.3:
+        txt += "<!-- user options written by hand -->\n"
+    txt += rec(user_options, 0) + "\n"
+    if st["crlf"]:
+        txt = txt.replace("\n", "\r\n")
+    if st["bom"]:
+        txt = "\ufeff" + txt
+    return txt
 
 
 class Case:
@@ -505,6 +603,7 @@ class Case:
         self.id, self.calc, self.family, self.user = cid, calc, family, user
         self.fault = fault   # (kind, name) for negative cases
         self.file = None
+        self.additional = []
 
 
 def gen_case(rng, cid, calc, decl, family, stats):
@@ -546,6 +645,19 @@ def gen_case(rng, cid, calc, decl, family, stats):
         for x in [x for x in par if x.tag == u.tag]:
             par.remove(x)
         return Case(cid, calc, family, root, ("required", d.tag))
+    if family == "additional_choices":
+        # a value that is no declared choice but was registered with
+        # setAdditionalChoices() (what xtp does for qmmm: "jobfile")
+        cand = [(d, u, par) for d, u, par in pairs
+                if len(d) == 0 and "choices" in d.attrib and
+                parse_choices(d.attrib["choices"])[1]]
+        if not cand:
+            return None
+        d, u, par = rng.choice(cand)
+        u.text = decorate(rng, "jobfile")
+        c = Case(cid, calc, family, root, ("additional", d.tag))
+        c.additional = ["jobfile", "other_extra"]
+        return c
     if family == "fault_choice":
         cand = [(d, u, par) for d, u, par in pairs
                 if len(d) == 0 and "choices" in d.attrib and
@@ -564,6 +676,111 @@ def gen_case(rng, cid, calc, decl, family, stats):
         par.remove(u)
         return Case(cid, calc, family, root, ("nodefault", d.tag))
     raise ValueError(family)
+
+
+
+# --------------------------------------------------------------------------
+# synthetic calculator descriptions (constructs the shipped files use, in
+# combinations that do not depend on one shipped file: several files in one
+# link attribute, links inside linked packages and inside list elements,
+# nested and multi-tag lists, unchecked sections, leaf list elements)
+# --------------------------------------------------------------------------
+
+SYNTH = {
+    "synth_links.xml": """<?xml version="1.0"?>
+<options>
+  <synth_links help="several files in one link attribute">
+    <name help="a plain leaf" default="x"/>
+    <multi link="pa.xml pb.xml, pc.xml" note="own"/>
+    <two link="pb.xml pa.xml" help="reverse order"/>
+    <viapd link="pd.xml"/>
+    <lst list="" default="OPTIONAL">
+      <item link="pa.xml pc.xml" default="OPTIONAL">
+        <id default="REQUIRED" choices="int"/>
+      </item>
+      <other default="OPTIONAL">
+        <w default="1.0" choices="float+"/>
+        <tags default="a" choices="[a,b,c]"/>
+      </other>
+    </lst>
+    <last default="end"/>
+  </synth_links>
+</options>
+""",
+    "synth_lists.xml": """<?xml version="1.0"?>
+<options>
+  <synth_lists help="nested and multi-tag lists">
+    <groups list="" default="REQUIRED">
+      <group>
+        <label default="REQUIRED"/>
+        <size default="3" choices="int+"/>
+        <mode default="fast" choices="fast,slow"/>
+        <comment default="OPTIONAL"/>
+        <members list="" default="OPTIONAL">
+          <member>
+            <idx default="REQUIRED" choices="int"/>
+            <weight default="1.0" choices="float"/>
+            <note default="OPTIONAL"/>
+            <matrix default="1 0 0"/>
+          </member>
+          <alias/>
+        </members>
+        <sub>
+          <deep default="d"/>
+          <flag default="false" choices="bool"/>
+        </sub>
+      </group>
+      <single default="OPTIONAL" choices="int"/>
+    </groups>
+    <free unchecked="" default="OPTIONAL"/>
+    <plain default="text"/>
+    <opt_section default="OPTIONAL">
+      <needed default="REQUIRED"/>
+      <with_default default="7" choices="int"/>
+    </opt_section>
+  </synth_lists>
+</options>
+""",
+    "subpackages/pa.xml": """<pa help="package A" origin="pa">
+  <a1 default="1" choices="int"/>
+  <a2 default="OPTIONAL"/>
+  <asec>
+    <a3 default="three"/>
+    <a4 default="OPTIONAL" choices="float"/>
+  </asec>
+</pa>
+""",
+    "subpackages/pb.xml": """<pb origin="pb" extra="b">
+  <b1 default="true" choices="bool"/>
+  <b2 default="b,c" choices="[a,b,c]"/>
+</pb>
+""",
+    "subpackages/pc.xml": """<pc note="from_pc" origin="pc">
+  <c1 default="0.5" choices="float"/>
+  <clist list="" default="OPTIONAL">
+    <el>
+      <v default="REQUIRED"/>
+      <opt default="OPTIONAL"/>
+      <d default="dd"/>
+    </el>
+  </clist>
+</pc>
+""",
+    "subpackages/pd.xml": """<pd>
+  <inner link="pa.xml pb.xml"/>
+  <anything unchecked=""/>
+  <d1 default="x y z"/>
+</pd>
+""",
+}
+
+
+def write_synthetic(d):
+    os.makedirs(os.path.join(d, "subpackages"), exist_ok=True)
+    for name, text in SYNTH.items():
+        with open(os.path.join(d, name), "w") as f:
+            f.write(text)
+    return d
 
 
 # --------------------------------------------------------------------------
@@ -616,19 +833,30 @@ def count_decl_leaves(d):
 
 FAMILIES = ["valid", "fault_undeclared", "valid", "fault_choice", "valid",
             "unchecked", "valid", "fault_required", "valid", "valid",
-            "fault_undeclared", "valid", "fault_choice", "valid",
+            "fault_undeclared", "valid", "fault_choice", "additional_choices",
             "fault_required", "valid", "fault_undeclared_userattr", "valid",
             "fault_choice", "valid"]
 
 
 def worker(args):
-    import subprocess
     out = Out()
     xmldir = args["defaults"].rstrip("/")
     work = args["work"]
     os.makedirs(work, exist_ok=True)
-    seed, shard, shards, per = args["seed"], args["shard"], args["shards"], \
-        args["per_calc"]
+    per = args["per_calc"]
+    # suite 1: every shipped calculator; suite 2: synthetic descriptions
+    run_suite(out, args, xmldir, "shipped", per)
+    synth = write_synthetic(os.path.join(work, "synth_defaults"))
+    run_suite(out, args, synth, "synthetic", 3 * per)
+    out.summary()
+    return 0
+
+
+def run_suite(out, args, xmldir, suite, per):
+    import subprocess
+    import time
+    work = args["work"]
+    seed, shard, shards = args["seed"], args["shard"], args["shards"]
     calcs = calculators(xmldir)
     packages = set()
     decls = {}
@@ -646,33 +874,35 @@ def worker(args):
                 continue
             rng = random.Random("%d/%s/%d" % (seed, calc, k))
             fam = FAMILIES[k % len(FAMILIES)]
-            if k == per - 1 and per >= 4:
+            if k == per - 1 and per >= 4 and suite == "shipped":
                 fam = "nodefault"
             cid = "%s.%d.%s" % (calc, k, fam)
             c = gen_case(rng, cid, calc, decls[calc], fam, stats)
-            if c is None and fam == "unchecked":
-                c = gen_case(rng, cid, calc, decls[calc], "valid", stats)
             if c is None:
                 out.counter("fault_not_applicable_" + fam)
                 c = gen_case(rng, cid.replace(fam, "valid"), calc,
                              decls[calc], "valid", stats)
+            # half of the files are written the way a person would write them
+            c.xml = to_xml(c.user, rng if rng.random() < 0.5 else None, stats)
             cases.append(c)
     for k, v in stats.items():
         out.counter(k, v)
     # write inputs + manifest
-    man = os.path.join(work, "manifest_%d.txt" % shard)
+    man = os.path.join(work, "manifest_%s_%d.txt" % (suite, shard))
     with open(man, "w") as mf:
         for i, c in enumerate(cases):
             if c.family == "calcopts":
                 mf.write("%s\tC\t%s\t-\n" % (c.id, c.calc))
                 continue
-            c.file = os.path.join(work, "u_%d_%d.xml" % (shard, i))
-            c.xml = to_xml(c.user)
-            with open(c.file, "w", encoding="utf-8") as f:
+            c.file = os.path.join(work, "u_%s_%d_%d.xml" % (suite, shard, i))
+            with open(c.file, "w", encoding="utf-8", newline="") as f:
                 f.write(c.xml)
-            mf.write("%s\tP\t%s\t%s\n" % (c.id, c.calc, c.file))
+            if c.additional:
+                mf.write("%s\tA\t%s\t%s\t%s\n" % (c.id, c.calc, c.file,
+                                                  ",".join(c.additional)))
+            else:
+                mf.write("%s\tP\t%s\t%s\n" % (c.id, c.calc, c.file))
     env = dict(os.environ)
-    import time
     for attempt in range(8):
         p = subprocess.run([args["harness"], "--mode", "merge", "--defaults",
                             xmldir + "/", "--manifest", man],
@@ -685,8 +915,7 @@ def worker(args):
     if p.returncode == 127 and b"loading shared libraries" in p.stderr:
         out.inconclusive("libraries were being rebuilt during merge shard %d"
                          % shard)
-        out.summary()
-        return 0
+        return
     res = {}
     for ln in p.stdout.decode("utf-8", "replace").splitlines():
         if not ln.startswith("{"):
@@ -702,22 +931,22 @@ def worker(args):
             out.violations += 1
         elif rec.get("t") == "inconclusive":
             print(ln, flush=True)
+        elif rec.get("t") == "summary":
+            # the in-driver monitor: shared handler against a fresh handler
+            n = rec.get("families", {}).get("reuse_handler_vs_fresh", 0)
+            out.eval("reuse_handler_vs_fresh", n)
     if p.returncode != 0:
         # sanitizer / assertion abort of the driver: hand the report on
         print(json.dumps({"t": "driver_abort", "rc": p.returncode,
                           "stderr": p.stderr.decode("utf-8", "replace")[-6000:],
                           "cases_done": len(res)}), flush=True)
-    covered = set()
     for c in cases:
         r = res.get(c.id)
         if r is None:
             if p.returncode == 0:
                 out.inconclusive("driver printed nothing for " + c.id)
             continue
-        covered.add(c.calc)
         judge(out, c, r, decls[c.calc], xmldir)
-    out.summary()
-    return 0
 
 
 def judge(out, c, r, decl, xmldir):
@@ -741,15 +970,26 @@ def judge(out, c, r, decl, xmldir):
     fam = c.family
     out.eval(fam)
     h = hashlib.sha1((c.calc + "\n" + c.xml).encode()).hexdigest()
-    uroot = c.user
-    exp, ex = model(decl, uroot)
+    # the model reads the file as written (independent XML parser), not the
+    # generator's element tree
+    try:
+        uroot = ET.fromstring(c.xml.encode("utf-8"))
+    except ET.ParseError as e:
+        out.inconclusive("generator wrote a user file python cannot parse: %s %s"
+                         % (c.id, e))
+        return
+    exp, ex = model(decl, uroot, c.additional)
     kinds = [e[0] for e in ex.errors]
     wit = {"calc": c.calc, "family": fam, "case": c.id, "user_xml": c.xml,
            "defaults_dir": xmldir}
+    if c.additional:
+        wit["additional_choices"] = c.additional
     if "undecided" in kinds:
         out.counter("dontcare_value_model_undecided")
         return
-    if fam in ("valid", "unchecked"):
+    if fam in ("valid", "unchecked", "additional_choices"):
+        if fam == "additional_choices":
+            out.distinct.add(h)
         if ex.errors:
             out.inconclusive("generator produced an invalid 'valid' case %s: %s"
                              % (c.id, ex.errors[:3]))
@@ -761,11 +1001,16 @@ def judge(out, c, r, decl, xmldir):
         if not r["ok"]:
             wit["error"] = r["err"]
             if fam == "unchecked" and re.search(
-                    r"(method|scf|maxcore|pointcharges|freeform)\d|nested",
+                    r"(method|scf|maxcore|pointcharges|freeform)\d|ncfree",
                     r["err"]):
                 out.violation("merge/unchecked-section-rejected",
                               "user content below a section declared "
                               "unchecked=\"\" is rejected as undeclared", wit)
+            elif fam == "additional_choices":
+                wit["additional_choices"] = c.additional
+                out.violation("merge/additional-choice-rejected",
+                              "a value registered with setAdditionalChoices() "
+                              "is rejected", wit)
             else:
                 out.violation("merge/valid-input-rejected",
                               "a valid user input is rejected", wit)
